@@ -162,6 +162,9 @@ func (s *Scanner) init(input string) error {
 			return s.error(s.pos, "no input found after delimiter %q", d)
 		}
 		s.input = parts[1]
+		// Account for the skipped directive line, as statement
+		// positions are offsets in the original input.
+		s.total = len(input) - len(s.input)
 	}
 	return nil
 }
